@@ -90,6 +90,7 @@ theorem container_replace_tdh (c : StatusWordContainer) (t : SrcWords.Tdh) :
 
 /-- numeric error code of the source's message text → the code string of the model's finding -/
 def codeStr : Nat → String
+  | 0 => "PAYLOAD"      -- a message without any `[E..]` code: the payload (padding) error of `do_payload_checks`
   | 10 => "E10" | 11 => "E11" | 12 => "E12" | 30 => "E30" | 40 => "E40" | 50 => "E50" | 60 => "E60" | 70 => "E70" | 71 => "E71" | 72 => "E72" | 73 => "E73" | 81 => "E81" | 41 => "E41" | 42 => "E42" | 44 => "E44" | 45 => "E45" | 110 => "E110" | 111 => "E111"
   | 990 => "E990" | 991 => "E991" | 992 => "E992" | 440 => "E440" | 441 => "E441" | 442 => "E442" | 443 => "E443" | 444 => "E444" | 445 => "E445" | _ => "?"
 
